@@ -457,8 +457,48 @@ BUSY_PRE = ["k = 0"]
 BUSY_LOOP = ["k = k + 1", "if k > 3:", "    k = 0", "for q in range(2):", "    k = k + 0"]
 
 
+WRAPS = [None, "if", "else", "elif", "for", "while", "try", "nested"]
+
+
+def wrap_lines(calls, mode, uid):
+    """the animate calls of one display placed inside a block whose body runs exactly once at run time (the
+    conditions read run-time variables: nothing is folded), so the model of the display is the same as for calls at
+    top level: `one` is 1, `w<uid>` a fresh counter"""
+    ind = lambda ls, n=1: ["    " * n + x for x in ls]
+    if not mode or not calls:
+        return list(calls)
+    if mode == "if":
+        return ["if one == 1:"] + ind(calls)
+    if mode == "else":
+        return ["if one == 0:", "    one = 0", "else:"] + ind(calls)
+    if mode == "elif":
+        return ["if one == 0:", "    one = 0", "elif one == 1:"] + ind(calls) + ["else:", "    one = 1"]
+    if mode == "for":
+        return ["for q%d in range(one):" % uid] + ind(calls)
+    if mode == "while":
+        return ["w%d = 0" % uid, "while w%d < 1:" % uid] + ind(calls) + ["    w%d = w%d + 1" % (uid, uid)]
+    if mode == "try":
+        return ["try:"] + ind(calls) + ["except:", "    one = 1"]
+    if mode == "nested":
+        return ["if one == 1:", "    for q%d in range(one):" % uid, "        try:"] + ind(calls, 3) + ["        except:", "            one = 1"]
+    raise ValueError(mode)
+
+
+def handler_lines(name, hanims, uid):
+    """animate calls that sit ONLY in except handlers (never executed on the device - the firmware raises nothing -
+    but each is a call site: state variable, start call, and one tick call per pass at the head of loop())"""
+    L, ind = [], ""
+    for i, a in enumerate(hanims):
+        # bare `except:` only (a named class becomes catch (<Class> &), which no Arduino core declares: C06's subject);
+        # the second call site sits in a handler nested in the first handler
+        L += [ind + "try:", ind + "    one = 1", ind + "except:", ind + "    " + animate_call(name, a, i % 4)]
+        ind += "    "
+    return L
+
+
 def device_script(lcds, loop_lines=None, runtime_speed=False, pre_lines=None):
-    """lcds: [{"name","cols","rows","i2c","anims":[[style,row,text,speed,loop]...]}]"""
+    """lcds: [{"name","cols","rows","i2c","anims":[[style,row,text,speed,loop]...], optional "wrap": one of WRAPS,
+    optional "handler_anims": [[style,row,text,speed,loop]...]}]"""
     L = ["from Reduino import target", "from Reduino.Displays import LCD", "from Reduino.Core import analog_read",
          'target("/dev/ttyUSB0")']
     for d in lcds:
@@ -469,14 +509,20 @@ def device_script(lcds, loop_lines=None, runtime_speed=False, pre_lines=None):
     if runtime_speed:
         L.append('spd = analog_read("A0")')
         L.append('rw = analog_read("A1")')
+    if any(d.get("wrap") or d.get("handler_anims") for d in lcds):
+        L.append('one = analog_read("A2")')
     j = 0
-    for d in lcds:
+    for uid, d in enumerate(lcds):
+        calls = []
         for a in d["anims"]:
             if runtime_speed:
-                L.append(f'{d["name"]}.animate("{a[0]}", rw + {a[1]}, {py_str(a[2])}, speed_ms=spd + {a[3] - runtime_speed}, loop={a[4]})')
+                calls.append(f'{d["name"]}.animate("{a[0]}", rw + {a[1]}, {py_str(a[2])}, speed_ms=spd + {a[3] - runtime_speed}, loop={a[4]})')
             else:
-                L.append(animate_call(d["name"], a, j % 4))
+                calls.append(animate_call(d["name"], a, j % 4))
             j += 1
+        L += wrap_lines(calls, d.get("wrap"), uid)
+        if d.get("handler_anims"):
+            L += handler_lines(d["name"], d["handler_anims"], uid)
     L += list(pre_lines or [])
     L.append("while True:")
     L += ["    " + x for x in (loop_lines or ["pass"])]
@@ -486,6 +532,46 @@ def device_script(lcds, loop_lines=None, runtime_speed=False, pre_lines=None):
 LCD_GLOBAL_RE = re.compile(r"^\s*LiquidCrystal(?:_I2C)?\s+__redu_lcd_(\w+)\s*\(", re.M)
 TICK_RE = re.compile(r"__redu_lcd_tick_(\w+)\(\s*__redu_lcd_anim_(\w+?)_(\d+)\s*,")
 VAR_RE = re.compile(r"^\s*__redu_lcd_animation_state\s+__redu_lcd_anim_(\w+?)_(\d+)\s*;", re.M)
+START_RE = re.compile(r"__redu_lcd_start_(\w+)\(\s*__redu_lcd_anim_(\w+?)_(\d+)\s*,")
+# a tick call at the top level of loop() (two spaces of indentation): executed once per pass, unconditionally
+TICK_TOP_RE = re.compile(r"^  __redu_lcd_tick_(\w+)\(\s*__redu_lcd_anim_(\w+?)_(\d+)\s*,", re.M)
+
+
+def injection_problems(cpp):
+    """the clause 'the transpiler guarantees it is advanced once per loop() pass without any delay call', evaluated on
+    the emitted text for a script inside the guard (every lcd.animate call site before the main loop, none in a def):
+    every state variable started in setup() - wherever the start call sits: top level, a branch, a loop body, a try
+    body, an except handler - is a declared global and has exactly one tick call of its own style at the top level
+    of loop(); loop() contains no delay call.  -> [(what, expected, observed)]"""
+    out = []
+    i_setup, i_loop = cpp.find("void setup()"), cpp.find("void loop()")
+    if i_setup < 0 or i_loop < 0:
+        return [("emitted sketch has no setup()/loop()", "both", [i_setup, i_loop])]
+    setup_txt, loop_txt = cpp[i_setup:i_loop], cpp[i_loop:]
+    end = loop_txt.find("\n}\n")
+    if end >= 0:
+        loop_txt = loop_txt[:end + 3]
+    declared = set(VAR_RE.findall(cpp))
+    top = {}
+    for (st, n, k) in TICK_TOP_RE.findall(loop_txt):
+        top.setdefault((n, k), []).append(st)
+    seen = set()
+    for (st, n, k) in START_RE.findall(setup_txt):
+        if (n, k) in seen:
+            continue
+        seen.add((n, k))
+        var = f"__redu_lcd_anim_{n}_{k}"
+        if (n, k) not in declared:
+            out.append((f"animation state {var} is started in setup() but never declared", "a global declaration", "none"))
+        got = top.get((n, k), [])
+        if got != [st]:
+            line = next((ln.strip() for ln in setup_txt.splitlines() if var + "," in ln), "")
+            out.append((f"loop() does not advance the animation {var} (started in setup() by {line[:70]}...) exactly once per pass",
+                        [f"__redu_lcd_tick_{st}({var}, ...) once at the top level of loop()"],
+                        [f"__redu_lcd_tick_{g}({var}, ...)" for g in got] or "no tick call for it in loop()"))
+    if re.search(r"\bdelay(?:Microseconds)?\s*\(", loop_txt):
+        out.append(("loop() of a script that never sleeps contains a delay call", "no delay", "delay(...) in loop()"))
+    return out
 
 
 def unescape(s):
@@ -743,6 +829,9 @@ def gen_device_groups(ctx):
                 text = s.get("text") or mk_text(s["n"], salt=s["salt"])
                 lcds.append({"name": f"d{q:02d}", "cols": s["cols"], "rows": s["rows"], "i2c": s["i2c"],
                              "anims": [[s["style"], s["row"], text, speed, s["loop"]]]})
+                if q % 3 == 1:
+                    # the call site inside a block that runs once (if / else / elif / for / while / try / nested)
+                    lcds[-1]["wrap"] = WRAPS[1 + (len(sketches) + q // 3) % (len(WRAPS) - 1)]
                 nd = bound(s["n"], s["cols"]) + 2
                 if s["loop"]:
                     nd = min(nd, s["n"] + 3 * s["cols"] + 4, 70 if not thorough else 170)
@@ -770,6 +859,16 @@ def gen_device_groups(ctx):
                 anims.append([rng.choice(STYLES), row, mk_text(rng.choice(len_classes(cols)), salt=j + q + len(anims), spaced=rng.random() < 0.3),
                               base_speed if rt else rng.choice([0, unit, unit, 1, 3, 100, -3]), rng.random() < 0.5])
             lcds.append({"name": f"m{q:02d}", "cols": cols, "rows": rows, "i2c": rng.random() < 0.5, "anims": anims})
+            if not rt:
+                lcds[-1]["wrap"] = WRAPS[(j + q) % len(WRAPS)]
+            if q == 5 and not rt:
+                # a display whose ONLY animations sit in except handlers (they never start on the device: its rows stay
+                # blank; the tick calls must be there all the same), and one (q == 4) that has both kinds of call site
+                lcds[-1]["handler_anims"] = [a for a in anims]
+                lcds[-1]["anims"] = []
+                lcds[-1]["wrap"] = None
+            if q == 4 and not rt:
+                lcds[-1]["handler_anims"] = [[rng.choice(STYLES), anims[0][1], "ERR", unit, True], [rng.choice(STYLES), anims[0][1], "E2", 0, False]]
         nows = tick_times(kind, base_speed if rt else unit, 60, rng, cap=250)
         # half of them with a main loop that does other (non-sleeping) work: the ticks must still come once per pass
         sketches.append({"lcds": lcds, "nows": nows, "runtime_speed": base_speed if rt else False, "busy": j % 4 in (0, 3),
@@ -791,6 +890,9 @@ def run_device(ctx, stats):
         inp = "clock0 0\npass " + " ".join(str(x) for x in incs) + "\n"
         if s["runtime_speed"]:
             inp += f"ar 14 {s['runtime_speed']}\nar 15 0\n"
+        inp += "ar 16 1\n"
+        for what, exp, obs in injection_problems(t["cpp"]):
+            ctx.fail(what, {"script": src, "nows": s["nows"][:8]}, exp, obs, key="dev-tick-injected")
         jobs.append({"cpp": t["cpp"], "input": inp, "loops": len(s["nows"]), "env": {"REDU_LCD_DUMP": "1", "REDU_NO_READ_EVENTS": "1"}, "run_timeout": 120})
         live.append((s, src, t["cpp"]))
     outs = fw.run_sketches(jobs)
@@ -837,6 +939,9 @@ def run_device(ctx, stats):
         tally(stats, "dev_animations_per_display", len(case["lcd"]["anims"]))
         tally(stats, "dev_cols", case["lcd"]["cols"])
         tally(stats, "dev_wiring", "i2c" if case["lcd"]["i2c"] else "parallel")
+        tally(stats, "dev_call_site_placement", case["lcd"].get("wrap") or "top-level")
+        if case["lcd"].get("handler_anims"):
+            tally(stats, "dev_displays_with_handler_call_sites", "only in handlers" if not case["lcd"]["anims"] else "handlers and elsewhere")
         for a in case["lcd"]["anims"]:
             tally(stats, "dev_style", a[0])
             tally(stats, "dev_loop", bool(a[4]))
@@ -935,6 +1040,255 @@ def run_injection(ctx, stats):
         stats["injection_modes"][mode] = stats["injection_modes"].get(mode, 0) + 1
 
 
+# --------------------------------------------------------------------------------------------
+# tick injection over the block structure: statement trees (Device/DLCDInject.v)
+#   tree node: ["anim", name, style] | ["other"] | ["block", kind, [body, ...], meta]
+#   kind 0 if (meta = has_else: the last body is the else body), 1 while, 2 for, 3 try (bodies[0] = try body, the rest
+#   = except handlers; meta = rotation of the handler headers)
+# --------------------------------------------------------------------------------------------
+
+POSITIONS = ["if", "elif", "else", "while", "for", "try", "exc0", "exc1"]
+EXC_HEADERS = ["except:", "except ValueError:", "except Exception as e%d:", "except Exception:"]
+
+
+def t_anim(name, style):
+    return ["anim", name, style]
+
+
+def t_place(pos, leaf, filler):
+    """a block with the statements `leaf` as the body named by `pos`; `filler()` yields the other bodies"""
+    if pos in ("if", "elif", "else"):
+        bodies = [filler(), filler(), filler()]
+        bodies[["if", "elif", "else"].index(pos)] = leaf
+        return ["block", 0, bodies, True]
+    if pos == "while":
+        return ["block", 1, [leaf], None]
+    if pos == "for":
+        return ["block", 2, [leaf], None]
+    if pos == "try":
+        return ["block", 3, [leaf, filler()], 0]
+    if pos == "exc0":
+        return ["block", 3, [filler(), leaf, filler()], 1]
+    if pos == "exc1":
+        return ["block", 3, [filler(), filler(), leaf], 2]
+    raise ValueError(pos)
+
+
+def t_nest(path, leaf, filler):
+    """leaf statements placed at the end of `path` (outermost position first)"""
+    body = leaf
+    for pos in reversed(path):
+        body = [t_place(pos, body, filler)]
+    return body
+
+
+def t_random(rng, names, depth, allow_anim=True):
+    body = []
+    for _ in range(rng.randint(1, 3)):
+        r = rng.random()
+        if depth > 0 and r < 0.5:
+            kind = rng.randrange(4)
+            if kind == 0:
+                nb = rng.randint(1, 3)
+                has_else = nb >= 2 and rng.random() < 0.6
+            elif kind == 3:
+                nb, has_else = rng.randint(2, 4), rng.randrange(4)
+            else:
+                nb, has_else = 1, None
+            body.append(["block", kind, [t_random(rng, names, depth - 1, allow_anim) for _ in range(nb)], has_else])
+        elif allow_anim and r < 0.85:
+            body.append(t_anim(rng.choice(names), rng.choice(STYLES)))
+        else:
+            body.append(["other"])
+    return body
+
+
+def t_sites(body):
+    """the (name, style) call sites in source order - the harness's own flattening, used by the oracle"""
+    out = []
+    for st in body:
+        if st[0] == "anim":
+            out.append((st[1], st[2]))
+        elif st[0] == "block":
+            for b in st[2]:
+                out += t_sites(b)
+    return out
+
+
+def t_positions(body, path=()):
+    """-> [(name, path of body kinds)] for the distribution"""
+    out = []
+    for st in body:
+        if st[0] == "anim":
+            out.append((st[1], path))
+        elif st[0] == "block":
+            for i, b in enumerate(st[2]):
+                if st[1] == 0:
+                    lab = "if" if i == 0 else "else" if st[3] and i == len(st[2]) - 1 else "elif"
+                elif st[1] == 3:
+                    lab = "try" if i == 0 else "except"
+                else:
+                    lab = ["", "while", "for"][st[1]]
+                out += t_positions(b, path + (lab,))
+    return out
+
+
+def t_wire(body, nid):
+    out = []
+    for st in body:
+        if st[0] == "anim":
+            out.append([0, nid[st[1]], CODE[st[2]]])
+        elif st[0] == "other":
+            out.append([1])
+        else:
+            out.append([2, st[1], [t_wire(b, nid) for b in st[2]]])
+    return out
+
+
+def t_render(body, ind, out, ctr):
+    for st in body:
+        if st[0] == "anim":
+            ctr[0] += 1
+            out.append(f'{ind}{st[1]}.animate("{st[2]}", {ctr[0] % 2}, "T{ctr[0]}", speed_ms=0, loop=True)')
+        elif st[0] == "other":
+            out.append(f"{ind}k = k + 1")
+        else:
+            kind, bodies, meta = st[1], st[2], st[3]
+            ctr[1] += 1
+            uid = ctr[1]
+            for i, b in enumerate(bodies):
+                if kind == 0:
+                    head = "if k == 0:" if i == 0 else "else:" if meta and i == len(bodies) - 1 else f"elif k == {i}:"
+                elif kind == 1:
+                    head = "while k < 3:"
+                elif kind == 2:
+                    head = f"for q{uid} in range(2):"
+                else:
+                    head = "try:" if i == 0 else EXC_HEADERS[(meta + i - 1) % len(EXC_HEADERS)].replace("%d", str(uid * 10 + i))
+                out.append(ind + head)
+                t_render(b if b else [["other"]], ind + "    ", out, ctr)
+                if kind == 1:
+                    out.append(ind + "    k = k + 1")
+
+
+def tree_script(setup, loop, names, noloop=False):
+    L = ["from Reduino import target", "from Reduino.Displays import LCD", 'target("/dev/ttyUSB0")']
+    for n in names:
+        L.append(f"{n} = LCD(rs=12, en=11, d4=5, d5=4, d6=3, d7=2, cols=8, rows=2)")
+    L.append("k = 0")
+    ctr = [0, 0]
+    t_render(setup, "", L, ctr)
+    if noloop:
+        return "\n".join(L) + "\n"
+    L.append("while True:")
+    t_render(loop if loop else [["other"]], "    ", L, ctr)
+    return "\n".join(L) + "\n"
+
+
+def gen_tree_cases(ctx):
+    """-> [(setup_tree, loop_tree, tag)].  Systematic part: a display `st` whose ONLY call site sits at the end of every
+    path of body kinds of length 1 and 2 over {if, elif, else, while, for, try body, first handler, second handler},
+    with the rest of the script rotating over: nothing else animates / the main display `ma` animates at top level /
+    `ma` animates in the sibling bodies of every block on the path.  Then paths of length 3 (seeded sample), two
+    call sites of one display in different handlers, seeded random trees, and trees whose main loop holds nested call
+    sites (outside the guard: correspondence with the model only)."""
+    rng = ctx.rng
+    thorough = ctx.tier == "thorough"
+    cases = []
+    paths = [(a,) for a in POSITIONS] + [(a, b) for a in POSITIONS for b in POSITIONS]
+    triple = [(a, b, c) for a in POSITIONS for b in POSITIONS for c in POSITIONS]
+    rng.shuffle(triple)
+    paths += triple if thorough else triple[:24]
+    for j, path in enumerate(paths):
+        style = STYLES[j % 4]
+        variant = j % 3
+        sib = [0]
+        def filler():
+            sib[0] += 1
+            if variant == 2:
+                return [t_anim("ma", STYLES[(j + sib[0]) % 4])]
+            return [["other"]]
+        setup = t_nest(list(path), [t_anim("st", style)] + ([["other"]] if j % 2 else []), filler)
+        if variant == 1:
+            setup = [t_anim("ma", STYLES[(j + 1) % 4])] + setup
+        cases.append((setup, [], "path:" + ">".join(path)))
+    # one display, call sites in two different handlers / handler and try body / handler and top level
+    for j, (pa, pb) in enumerate([("exc0", "exc1"), ("try", "exc0"), ("exc1", None), ("exc0", "else"), ("for", "exc1")]):
+        f = lambda: [["other"]]
+        setup = t_nest([pa], [t_anim("st", STYLES[j % 4])], f)
+        setup += [t_anim("st", STYLES[(j + 1) % 4])] if pb is None else t_nest([pb], [t_anim("st", STYLES[(j + 2) % 4])], f)
+        cases.append((setup, [], "two-sites"))
+    names = ["ma", "st", "zz"]
+    for j in range(60 if thorough else 20):
+        cases.append((t_random(rng, names, 3), [], "random"))
+    for j in range(16 if thorough else 6):
+        cases.append((t_random(rng, names, 2), t_random(rng, names, 2), "random:loop-sites"))
+    for j in range(6 if thorough else 2):
+        cases.append((t_random(rng, names, 2), [], "random:noloop"))
+    return cases
+
+
+def run_injection_trees(ctx, stats):
+    names = ["ma", "st", "zz"]
+    nid = {n: i for i, n in enumerate(names)}
+    cases = gen_tree_cases(ctx)
+    srcs = [tree_script(a, b, names, noloop=tag.endswith("noloop")) for a, b, tag in cases]
+    tr = fw.transpile_many(srcs)
+    model = ctx.model([[4, t_wire(a, nid), t_wire(b, nid)] for a, b, _ in cases]) if ctx.exe else [None] * len(cases)
+    compile_jobs = []
+    for (a, b, tag), src, t, m in zip(cases, srcs, tr, model):
+        in_guard = not t_sites(b)
+        stats["tree_shapes"] = stats.get("tree_shapes", 0) + 1
+        tally(stats, "tree_tags", tag.split(":")[0] + (":" + tag.split(":")[1] if tag.startswith("random:") else ""))
+        for name, path in t_positions(a):
+            tally(stats, "tree_call_site_depth", len(path))
+            tally(stats, "tree_call_site_innermost_body", path[-1] if path else "top-level")
+        by_name = {}
+        for name, path in t_positions(a):
+            by_name.setdefault(name, []).append(path)
+        for name, ps in by_name.items():
+            if all(p and "except" in p for p in ps):
+                stats["tree_displays_animated_only_inside_handlers"] = stats.get("tree_displays_animated_only_inside_handlers", 0) + 1
+        if not t["ok"]:
+            if in_guard:
+                ctx.fail("transpiler rejected a script with lcd.animate before the main loop", {"script": src}, "C++", t, key="dev-transpile")
+            continue
+        cpp = t["cpp"]
+        loop_txt = cpp[cpp.find("void loop()"):]
+        ticks = [[nid[n], int(k), CODE[st]] for (st, n, k) in TICK_RE.findall(loop_txt)]
+        decl = sorted([nid[n], int(k)] for (n, k) in VAR_RE.findall(cpp))
+        if in_guard:
+            # the property itself, on the emitted text
+            for what, exp, obs in injection_problems(cpp):
+                ctx.fail(what, {"script": src}, exp, obs, key="dev-tick-injected")
+            want = sorted([nid[n], CODE[s_]] for n, s_ in t_sites(a))
+            got = sorted([t_[0], t_[2]] for t_ in ticks)
+            if want != got:
+                ctx.fail("loop() does not tick every animation started before the main loop exactly once (call sites nested in blocks)",
+                         {"script": src}, want, got, key="dev-tick-injected")
+            if len(compile_jobs) < (12 if ctx.tier == "thorough" else 4) and tag.startswith("random") and "except Exception" not in src and "except ValueError" not in src:
+                compile_jobs.append((src, cpp))
+        if m is not None:
+            if m[0] != 0:
+                ctx.disagree("tick injection (trees): model could not decode the case (harness bug)", {"script": src}, m, None)
+            elif [list(x) for x in m[1]] != ticks:
+                ctx.disagree("tick injection (trees): emitted tick calls vs the parser/emitter walk model", {"script": src}, [list(x) for x in m[1]], ticks)
+            elif sorted([x[0], x[1]] for x in m[2]) != decl:
+                ctx.disagree("tick injection (trees): declared animation state variables vs the emitter walk model", {"script": src}, m[2], decl)
+    # a few of the nested scripts (bare `except:` only - named exception classes are C06's subject) really compile and run
+    if compile_jobs:
+        outs = fw.run_sketches([{"cpp": cpp, "input": "clock0 0\npass 10 10 10\n", "loops": 3, "env": {"REDU_LCD_DUMP": "1"}, "run_timeout": 60}
+                                for _, cpp in compile_jobs])
+        for (src, _), o in zip(compile_jobs, outs):
+            stats["tree_sketches_compiled_and_run"] = stats.get("tree_sketches_compiled_and_run", 0) + 1
+            if not o["compiled"] or o["rc"] != 0:
+                ctx.fail("emitted sketch with nested lcd.animate call sites does not compile / crashed", {"script": src}, "runs",
+                         {"log": o["compile_log"][-800:], "rc": o["rc"], "stderr": o["stderr"][-400:]}, key="dev-compile")
+            elif any(e.startswith(("D ", "DU ")) for e in o["events"]):
+                ctx.fail("delay()/delayMicroseconds() called although the script never sleeps", {"script": src}, "no D/DU event",
+                         [e for e in o["events"] if e.startswith(("D ", "DU "))][:3], key="dev-delay")
+
+
 def run_schedule_spec(ctx, stats, hcases, dindex):
     """the oracle's own notion of a due tick ([ideal_due], used by the rate-limit / due-skipped relations) against the
     extracted specification schedule [due_flags] of coq/Host/LCDAnim.v, which C18_step_schedule_device/_host prove to
@@ -1017,7 +1371,9 @@ def replay(data):
             print("REPRODUCED: the transpiler rejects the script", t)
             return 1
         incs = [nows[0]] + [b - a for a, b in zip(nows, nows[1:])]
-        inp = "clock0 0\npass " + " ".join(map(str, incs)) + "\n" + (f"ar 14 {rts}\nar 15 0\n" if rts else "")
+        inp = "clock0 0\npass " + " ".join(map(str, incs)) + "\n" + (f"ar 14 {rts}\nar 15 0\n" if rts else "") + "ar 16 1\n"
+        for what, exp, obs in injection_problems(t["cpp"]):
+            col.fail(what, case, exp, obs, key="dev-tick-injected")
         o = fw.run_sketches([{"cpp": t["cpp"], "input": inp, "loops": len(nows),
                               "env": {"REDU_LCD_DUMP": "1", "REDU_NO_READ_EVENTS": "1"}, "run_timeout": 120}])[0]
         if not o["compiled"] or o["rc"] != 0:
@@ -1041,22 +1397,22 @@ def replay(data):
         if not t["ok"]:
             print("REPRODUCED: the transpiler rejects the script", t)
             return 1
+        print("replay: script\n" + case["script"])
+        for what, exp, obs in injection_problems(t["cpp"]):
+            col.fail(what, case, exp, obs, key="dev-tick-injected")
         nows = case.get("nows") or [10, 20, 30, 40, 50]
         incs = [nows[0]] + [b - a for a, b in zip(nows, nows[1:])]
-        o = fw.run_sketches([{"cpp": t["cpp"], "input": "clock0 0\npass " + " ".join(map(str, incs)) + "\n", "loops": len(nows),
-                              "env": {"REDU_LCD_DUMP": "1", "REDU_NO_READ_EVENTS": "1"}, "run_timeout": 120}])[0]
-        if not o["compiled"] or o["rc"] != 0:
-            print("REPRODUCED: the emitted sketch does not compile / crashed", o["compile_log"][-600:], o["stderr"][-300:])
-            return 1
-        cpp = t["cpp"]
-        loop_txt = cpp[cpp.find("void loop()"):]
-        started = len(re.findall(r"__redu_lcd_start_\w+\(", cpp[cpp.find("void setup()"):cpp.find("void loop()")]))
-        ticked = len(TICK_RE.findall(loop_txt))
-        if started != ticked:
-            col.fail("loop() does not tick every animation started before the main loop exactly once", case, started, ticked, key="dev-tick-injected")
-        if any(e.startswith(("D ", "DU ")) for e in o["events"]):
-            col.fail("delay()/delayMicroseconds() called although the script never sleeps", case, "no D/DU event",
-                     [e for e in o["events"] if e.startswith(("D ", "DU "))][:3], key="dev-delay")
+        # `except <Class>:` becomes catch (<Class> &), which no Arduino core declares (C06's subject): such a script is
+        # judged on the emitted text only; every other one is also compiled and run
+        if not re.search(r"^\s*except\s+\w", case["script"], re.M):
+            o = fw.run_sketches([{"cpp": t["cpp"], "input": "clock0 0\npass " + " ".join(map(str, incs)) + "\nar 16 1\n", "loops": len(nows),
+                                  "env": {"REDU_LCD_DUMP": "1", "REDU_NO_READ_EVENTS": "1"}, "run_timeout": 120}])[0]
+            if not o["compiled"] or o["rc"] != 0:
+                print("REPRODUCED: the emitted sketch does not compile / crashed", o["compile_log"][-600:], o["stderr"][-300:])
+                return 1
+            if any(e.startswith(("D ", "DU ")) for e in o["events"]):
+                col.fail("delay()/delayMicroseconds() called although the script never sleeps", case, "no D/DU event",
+                         [e for e in o["events"] if e.startswith(("D ", "DU "))][:3], key="dev-delay")
     else:
         print("replay: no replayable case in this file (correspondence / proof failure: see the fields above)")
         return 0
@@ -1072,6 +1428,7 @@ def run(ctx: C.Ctx):
     hcases, h_nt = run_host(ctx, stats)
     dindex, d_nt = run_device(ctx, stats)
     run_injection(ctx, stats)
+    run_injection_trees(ctx, stats)
     run_schedule_spec(ctx, stats, hcases, dindex)
     for f in ctx.findings:
         if f.get("kind") == "fixed":
@@ -1082,7 +1439,7 @@ def run(ctx: C.Ctx):
         except Exception as e:  # noqa
             ctx.notes.append(f"replay of {f['id']} failed to run: {e}")
     ctx.coverage.update({
-        "evaluations": len(hcases) + len(dindex) + stats.get("injection_shapes", 0),
+        "evaluations": len(hcases) + len(dindex) + stats.get("injection_shapes", 0) + stats.get("tree_shapes", 0),
         "distinct_nontrivial": h_nt + d_nt,
         "rule": "host: (4 styles x cols in {1,2,3,8,16,20,40} x len in {0,1,cols-1,cols,cols+1,2cols} x loop x speed in {0,1,100} x tick schedule in {ontime,early,late,equal,burst}) "
                 "(quick: two speed/schedule picks per cell rotating over all 15 pairs, thorough: all, plus every other width 1..40 with two picks per cell), plus seeded random single-animation cases "
